@@ -168,7 +168,7 @@ def derivations(kind, form):
                      ("dir", lambda x: dir(x) and None), ("reversed", lambda x: x[::-1]), ("contains", lambda x: 2 in x)):
         add(name, lambda sc, fn=fn: fn(sc.x))
     # every public no-argument method / property of the object's own class, found at run time
-    skip = {"rename", "alias", "new", "rename_column", "rename_columns", "name", "peek", "today", "fromtimestamp", "fromisoformat", "fromordinal",
+    skip = {"rename", "alias", "new", "rename_column", "rename_columns", "name", "today", "fromtimestamp", "fromisoformat", "fromordinal",
             "fromisocalendar", "maketrans", "format", "format_map", "join"}
     return out, skip
 
